@@ -294,7 +294,7 @@ def strip_docs_attrs(text, counts):
 # template processing
 # ----------------------------------------------------------------------------------------------
 ARG_RE = re.compile(r'(\w+)=("([^"]*)"|\S+)')
-SUB_RE = re.compile(r'^\s*(sig|sub)\s+"((?:[^"\\]|\\.)*)"\s*=>\s*"((?:[^"\\]|\\.)*)"\s*(?:x(\d+))?\s*$')
+SUB_RE = re.compile(r'^\s*(sig|sub|macro)\s+"((?:[^"\\]|\\.)*)"\s*=>\s*"((?:[^"\\]|\\.)*)"\s*(?:x(\d+))?\s*$')
 LABEL_RE = re.compile(r"//\s*\[([^\]]+)\]\s*$")
 SIDE_OK = re.compile(r"^\s*(requires|ensures|decreases|invariant|invariant_except_break|proof\s*\{|assert\b|assert\(|let ghost|broadcast use|recommends|no_unwind|opens_invariants|//|$)")
 
@@ -661,6 +661,26 @@ class Unit:
             else:
                 i += 1
         joined = "".join(out)
+        # R7 macro rewrite: `name!( ...balanced... )` -> replacement, newlines kept so line numbers stay aligned
+        for kind, old_m, new_m, cnt in [x for x in subs if x[0] == "macro"]:
+            jm = mask(joined)
+            outp = []
+            pos = 0
+            hits = 0
+            while True:
+                k = jm.find(old_m + "(", pos)
+                if k < 0:
+                    break
+                e = match_brace(jm, k + len(old_m), "(", ")")
+                outp.append(joined[pos:k])
+                outp.append(new_m + "\n" * joined[k:e].count("\n"))
+                pos = e
+                hits += 1
+            outp.append(joined[pos:])
+            if hits == 0 or (cnt is not None and hits != cnt):
+                raise ExtractError("lost anchor: macro rewrite %s expected %s invocation(s) in %s, found %d" % (old_m, cnt, fid, hits))
+            joined = "".join(outp)
+            self.counts["macro:%s" % old_m] = self.counts.get("macro:%s" % old_m, 0) + hits
         body_subs = [x for x in subs if x[0] == "sub"]
         for kind, old, new, cnt in body_subs:
             if "\n" in old or "\n" in new:
